@@ -1,0 +1,36 @@
+//go:build verif
+
+// Contracts for the deductive verifier in /verif (comment-only file; see /verif/DESIGN.md).
+package fetch
+
+//@ property C04 C05 C02 C17
+
+// Wire layout per version, from the Kafka protocol definition of this API (field order, types and the versions each field
+// exists in); the encoders and decoders are compiled from the struct tags, so the tags are checked against it.
+//@ wire Request
+//@   layout v0..v2 ReplicaID int32, MaxWaitTime int32, MinBytes int32, Topics []RequestTopic
+//@   layout v3 ReplicaID int32, MaxWaitTime int32, MinBytes int32, MaxBytes int32, Topics []RequestTopic
+//@   layout v4..v6 ReplicaID int32, MaxWaitTime int32, MinBytes int32, MaxBytes int32, IsolationLevel int8, Topics []RequestTopic
+//@   layout v7..v10 ReplicaID int32, MaxWaitTime int32, MinBytes int32, MaxBytes int32, IsolationLevel int8, SessionID int32, SessionEpoch int32, Topics []RequestTopic, ForgottenTopics []RequestForgottenTopic
+//@   layout v11 ReplicaID int32, MaxWaitTime int32, MinBytes int32, MaxBytes int32, IsolationLevel int8, SessionID int32, SessionEpoch int32, Topics []RequestTopic, ForgottenTopics []RequestForgottenTopic, RackID string
+//@ wire RequestTopic
+//@   layout v0..v11 Topic string, Partitions []RequestPartition
+//@ wire RequestPartition
+//@   layout v0..v4 Partition int32, FetchOffset int64, PartitionMaxBytes int32
+//@   layout v5..v8 Partition int32, FetchOffset int64, LogStartOffset int64, PartitionMaxBytes int32
+//@   layout v9..v11 Partition int32, CurrentLeaderEpoch int32, FetchOffset int64, LogStartOffset int64, PartitionMaxBytes int32
+//@ wire RequestForgottenTopic
+//@   layout v7..v11 Topic string, Partitions []int32
+//@ wire Response
+//@   layout v0 Topics []ResponseTopic
+//@   layout v1..v6 ThrottleTimeMs int32, Topics []ResponseTopic
+//@   layout v7..v11 ThrottleTimeMs int32, ErrorCode int16, SessionID int32, Topics []ResponseTopic
+//@ wire ResponseTopic
+//@   layout v0..v11 Topic string, Partitions []ResponsePartition
+//@ wire ResponsePartition
+//@   layout v0..v3 Partition int32, ErrorCode int16, HighWatermark int64, RecordSet protocol.RecordSet
+//@   layout v4 Partition int32, ErrorCode int16, HighWatermark int64, LastStableOffset int64, AbortedTransactions []ResponseTransaction, RecordSet protocol.RecordSet
+//@   layout v5..v10 Partition int32, ErrorCode int16, HighWatermark int64, LastStableOffset int64, LogStartOffset int64, AbortedTransactions []ResponseTransaction, RecordSet protocol.RecordSet
+//@   layout v11 Partition int32, ErrorCode int16, HighWatermark int64, LastStableOffset int64, LogStartOffset int64, AbortedTransactions []ResponseTransaction, PreferredReadReplica int32, RecordSet protocol.RecordSet
+//@ wire ResponseTransaction
+//@   layout v4..v11 ProducerID int64, FirstOffset int64
